@@ -282,6 +282,16 @@ func (e *Exec) deliver(tx model.Tx) (TxObs, []Disc, bool) {
 			Sig:    map[string]string{"kind": k, "panic": fmt.Sprint(strings.Contains(r.Log, "panic") || strings.Contains(r.Log, "recovered"))}})
 		diverged = true
 	}
+	// signed by exactly the keys of the parties its messages name, with the right sequences - and refused
+	// because "the signature does not match the signer": what the chain takes for the signer of the
+	// message is not the party the operation belongs to
+	if !r.OK() && !obs.AnteOK && !wrongSigner && !tx.BadSig && tx.SeqDelta == 0 && r.Codespace == "sdk" && (r.Code == 4 || r.Code == 8) &&
+		(strings.Contains(r.Log, "signature verification failed") || strings.Contains(r.Log, "pubKey does not match signer address")) {
+		k := model.Flatten(tx.Msgs)[0].Kind
+		discs = append(discs, Disc{Kind: "tx.entitled_signer_refused:" + k,
+			Detail: fmt.Sprintf("transaction signed by %v, the parties its messages name, is refused by signature verification (%s); tx %s", signers, firstLine(r.Log), txJSON(tx)),
+			Sig:    map[string]string{"kind": k}})
+	}
 	if strings.Contains(r.Log, "recovered:") && !strings.Contains(r.Log, "out of gas") {
 		discs = append(discs, Disc{Kind: "tx.panic", Detail: fmt.Sprintf("transaction aborted with a recovered panic: %s; tx %s", firstLine(r.Log), txJSON(tx)),
 			Sig: map[string]string{"kind": model.Flatten(tx.Msgs)[0].Kind}})
